@@ -1,7 +1,7 @@
 #!/usr/bin/env python3
-"""Regenerates engines/core_skeleton.json: the syntactic skeleton (harness/cmd/ruextract-core) of the functions
-the model lean/core mirrors, taken from /repo's CURRENT tree.  Run it after every deliberate change to /repo (fix:
-commits) once the model has been brought in line; the core checks compare the current tree with this file."""
+"""Regenerates engines/skeleton_<set>.json: the syntactic skeleton (harness/cmd/ruextract-core) of the functions the
+hand-written Lean models mirror, taken from /repo's CURRENT tree.  Run it after every deliberate change to /repo (fix:
+commits) once the models have been brought in line; the checks compare the current tree with these files."""
 import json, subprocess, sys
 from pathlib import Path
 V = Path(__file__).resolve().parent.parent
@@ -10,10 +10,11 @@ import vlib
 ok, binary, log = vlib.go_build("ruextract-core")
 if not ok:
     sys.exit(log)
-rc, out, err = vlib.run([str(binary), "--repo", str(vlib.REPO)])
-if rc != 0:
-    sys.exit(err)
-fns = json.loads(out)
 head = subprocess.run("git -C /repo log --format=%h -1", shell=True, capture_output=True, text=True).stdout.strip()
-(V / "engines" / "core_skeleton.json").write_text(json.dumps({"repo_head": head, "functions": fns}, indent=1))
-print(len(fns), "functions at", head)
+for s in ("core", "neigh", "wallet", "clock", "codec"):
+    rc, out, err = vlib.run([str(binary), "--repo", str(vlib.REPO), "--set", s])
+    if rc != 0:
+        sys.exit(err)
+    fns = json.loads(out)
+    (V / "engines" / f"skeleton_{s}.json").write_text(json.dumps({"repo_head": head, "functions": fns}, indent=1))
+    print(s, len(fns), "functions at", head)
